@@ -2,7 +2,7 @@
 import os
 
 from . import core
-from .rules import stdio, cert, mark, exact, optstore, inval, idx, atomic, own, tokens, idxclass, copy, pair, structfree
+from .rules import stdio, cert, mark, exact, optstore, inval, idx, atomic, own, tokens, idxclass, copy, pair, structfree, buf, div, counter
 from .effects import Effects
 
 FIX = os.path.join(os.path.dirname(os.path.abspath(__file__)), "fixtures")
@@ -313,6 +313,26 @@ PROPS = {
                       "out-parameters / returns hand the block over; one reasoned exception (ILLwrite_mps objname)",
         "not_decided": "ownership across calls in general (a callee that keeps a pointer it was lent), blocks reachable only through heap "
                        "structures, GMP numbers inside heap arrays (covered only through the allocation macros' own loops)",
+    },
+    "C11": {
+        "rules": [lambda prog, tier: buf.run(prog, scope_funcs=set(prog.reachable([prog.require_fn(r).key for r in
+                                                                                 ("mpq_QSread_prob", "mpq_QSget_prob", "mpq_QSread_basis", "mpq_QSread_and_load_basis")]))),
+                  lambda prog, tier: div.run(prog), lambda prog, tier: counter.run(prog)],
+        "technique": "census and classification of buffer-writing calls in the reader call-graph closures (destination array sizes from the "
+                     "type-resolved program, format-length bounds); dominance analysis for zero tests of GMP divisors and for counter guards",
+        "explanation": "Decides three structural clauses of C11 for every function reachable from the LP/MPS/basis readers: (R-BUF) every "
+                       "copy or format into a buffer is bounded by the buffer - explicit size not larger than the destination, fitting "
+                       "literal/integer sources, no larger source array, destination sized from strlen - or carries a frozen one-site reason; "
+                       "(R-DIV) every GMP division is dominated by a test of its divisor, canonicalisations are non-zero by construction (one "
+                       "reason each); (R-CNT) the basis header arrays are never indexed by a data-driven counter without a dominating bound test.",
+        "level_text": "All-sites guarantee for bounded writes, guarded divisions and guarded counters on the reader paths. Found and fixed on the "
+                      "pinned tree: stack-buffer-overflow of the 256-byte error message buffer in lp_err / mps_err / ILLmsg (a 600-character "
+                      "token in a malformed file), SIGFPE on the literal 1/0, heap-buffer-overflow in ILLbasis_load for a basis with more basic "
+                      "variables than rows. Does not decide termination of the readers or consistency of a returned problem.",
+        "level_note": "trusted: destination sizes from clang's record layouts / local array types; the exception table of sa/rules/buf.py (one "
+                      "reason per site) and the by-construction table of sa/rules/div.py; dominance uses the live CFG",
+        "not_decided": "absence of loops that do not consume input (seed C11/3), internal consistency of a returned problem, negative entries "
+                       "of the raw->lp index maps (seed C11/1)",
     },
     "C20": {
         "rules": [lambda prog, tier: stdio.run(prog)],
